@@ -3,8 +3,16 @@
 package c11
 
 import (
+	"bytes"
+	"fmt"
+	"strings"
 	"testing"
+	"time"
 
+	"github.com/prometheus/client_golang/prometheus"
+
+	"github.com/prometheus/alertmanager/nflog"
+	"github.com/prometheus/alertmanager/silence"
 	spb "github.com/prometheus/alertmanager/silence/silencepb"
 
 	"verifharness/vh"
@@ -20,6 +28,343 @@ type Mut struct {
 	Val    byte `json:"val,omitempty"`
 }
 
-func codecCase(t *testing.T, run *vh.Run, c *Case)  {}
-func mutateCase(t *testing.T, run *vh.Run, c *Case) {}
-func codecAll(t *testing.T, run *vh.Run, r *vh.Rand, env vh.Env) {}
+func (m Mut) apply(b []byte) []byte {
+	if m.Prefix {
+		return append([]byte(nil), b[:m.Len]...)
+	}
+	out := append([]byte(nil), b...)
+	out[m.Pos] = m.Val
+	return out
+}
+func (m Mut) coq() string {
+	if m.Prefix {
+		return fmt.Sprintf("(MPrefix %d)", m.Len)
+	}
+	return fmt.Sprintf("(MFlip %d %d)", m.Pos, m.Val)
+}
+
+// ---------- Coq literals of records ----------
+
+func coqTS(t TS) string {
+	if !t.Set {
+		return "None"
+	}
+	return vh.Some(vh.App("mkTs", vh.Z(t.S), vh.Z(int64(t.N))))
+}
+func coqZs(xs []uint64) string { return vh.ListOf(xs, vh.U64) }
+
+func coqRD(d RD) string {
+	var v string
+	switch d.Kind {
+	case "str":
+		v = vh.Some(vh.App("RStr", vh.Str(d.S)))
+	case "int":
+		v = vh.Some(vh.App("RInt", vh.Z(d.I)))
+	case "dbl":
+		v = vh.Some(vh.App("RDbl", vh.U64(d.F)))
+	default:
+		v = "None"
+	}
+	return vh.Pair(vh.Str(d.K), v)
+}
+
+func coqNEntry(e NEntry) string {
+	ent := "None"
+	if e.HasEntry {
+		rc := "None"
+		if e.HasRecv {
+			rc = vh.Some(vh.App("mkR", vh.Str(e.Group), vh.Str(e.Integ), vh.Z(int64(e.Idx))))
+		}
+		ent = vh.Some(vh.App("mkE", vh.Str(string(e.GKey)), rc, vh.Str(string(e.GHash)), vh.Bool(e.Resolved), coqTS(e.TS),
+			coqZs(e.Firing), coqZs(e.ResAl), vh.ListOf(e.Data, coqRD)))
+	}
+	return vh.App("mkMesh", ent, coqTS(e.Exp))
+}
+
+func coqMt(m Mt) string { return vh.App("mkWM", vh.Z(int64(m.Type)), vh.Str(m.Name), vh.Str(m.Pattern)) }
+func coqMts(ms []Mt) string { return vh.ListOf(ms, coqMt) }
+
+func coqSil(s Sil) string {
+	sil := "None"
+	if s.HasSil {
+		cms := vh.ListOf(s.Comments, func(c Cm) string { return vh.App("mkWC", vh.Str(c.Author), vh.Str(c.Comment), coqTS(c.TS)) })
+		ann := vh.ListOf(s.Ann, func(kv [2]string) string { return vh.Pair(vh.Str(kv[0]), vh.Str(kv[1])) })
+		sil = vh.Some(vh.App("mkWS", vh.Str(s.ID), coqMts(s.Matchers), coqTS(s.Starts), coqTS(s.Ends), coqTS(s.Updated), cms,
+			vh.Str(s.CreatedBy), vh.Str(s.Comment), ann, vh.ListOf(s.MSets, coqMts), vh.ListOf(s.RMSets, coqMts)))
+	}
+	return vh.App("mkMS", sil, coqTS(s.Exp))
+}
+
+// ---------- (c) codec differential ----------
+
+// codecCase: c.Bytes were produced by protobuf-go; c.RecsN / c.RecsS is what protobuf-go decodes them to.
+func codecCase(t *testing.T, run *vh.Run, c *Case) {
+	exact := "false"
+	if c.Store == storeNflog {
+		got, err := decodeN(c.Bytes)
+		if err != nil {
+			t.Fatalf("reference decoder rejects its own bytes: %v", err)
+		}
+		if canonN(got) != canonN(c.RecsN) || len(got) != len(c.RecsN) {
+			run.Violate("roundtrip-not-identical", "nflog: protobuf round trip of the records is not the identity", c)
+		}
+		if bytes.Equal(marshalN(got), c.Bytes) {
+			exact = "true"
+		}
+		run.Add(fmt.Sprintf("CCodecN %s\n  %s %s", vh.Str(string(c.Bytes)), vh.ListOf(got, coqNEntry), exact), c, len(got) > 0)
+		run.Count("codec_cases", "nflog/exact="+exact)
+		return
+	}
+	got, err := decodeS(c.Bytes)
+	if err != nil {
+		t.Fatalf("reference decoder rejects its own bytes: %v", err)
+	}
+	if canonS(got) != canonS(c.RecsS) || len(got) != len(c.RecsS) {
+		run.Violate("roundtrip-not-identical", "silences: protobuf round trip of the records is not the identity", c)
+	}
+	if bytes.Equal(marshalS(got), c.Bytes) {
+		exact = "true"
+	}
+	run.Add(fmt.Sprintf("CCodecS %s\n  %s %s", vh.Str(string(c.Bytes)), vh.ListOf(got, coqSil), exact), c, len(got) > 0)
+	run.Count("codec_cases", "silences/exact="+exact)
+}
+
+// realSnapshot: the bytes the real Snapshot() writes for a store holding the records (loaded through the real
+// loader from reference-marshalled bytes), and the records in the order Snapshot wrote them.
+func realSnapshot(t *testing.T, store int, n []NEntry, s []Sil) []byte {
+	var buf bytes.Buffer
+	if store == storeNflog {
+		l, err := nflog.New(nflog.Options{SnapshotReader: bytes.NewReader(marshalN(n)), Retention: time.Hour, Metrics: prometheus.NewRegistry()})
+		if err != nil {
+			t.Fatal(err)
+		}
+		if _, err := l.Snapshot(&buf); err != nil {
+			t.Fatal(err)
+		}
+	} else {
+		x, err := silence.New(silence.Options{SnapshotReader: bytes.NewReader(marshalS(s)), Retention: time.Hour, Metrics: prometheus.NewRegistry()})
+		if err != nil {
+			t.Fatal(err)
+		}
+		if _, err := x.Snapshot(&buf); err != nil {
+			t.Fatal(err)
+		}
+	}
+	return buf.Bytes()
+}
+
+// ---------- (d) prefixes and corruptions through the real loader ----------
+
+func loadBytes(store int, b []byte) (canon string, n []NEntry, s []Sil, err error) {
+	if store == storeNflog {
+		l, err := nflog.New(nflog.Options{SnapshotReader: bytes.NewReader(b), Retention: time.Hour, Metrics: prometheus.NewRegistry()})
+		if err != nil {
+			return "", nil, nil, err
+		}
+		sb, err := l.MarshalBinary()
+		if err != nil {
+			return "", nil, nil, fmt.Errorf("loaded state cannot be marshalled: %w", err)
+		}
+		n, err = decodeN(sb)
+		return canonN(n), n, nil, err
+	}
+	x, err := silence.New(silence.Options{SnapshotReader: bytes.NewReader(b), Retention: time.Hour, Metrics: prometheus.NewRegistry()})
+	if err != nil {
+		return "", nil, nil, err
+	}
+	sb, err := x.MarshalBinary()
+	if err != nil {
+		return "", nil, nil, fmt.Errorf("loaded state cannot be marshalled: %w", err)
+	}
+	s, err = decodeS(sb)
+	for i := range s {
+		s[i] = s[i].Upgraded()
+	}
+	return canonS(s), nil, s, err
+}
+
+func mutateCase(t *testing.T, run *vh.Run, c *Case) {
+	base := c.Bytes
+	ends := frameEnds(base)
+	// reference: the records of the unmutated file, in order (keys are unique in generated files)
+	var items []string
+	for _, m := range c.Muts {
+		mb := m.apply(base)
+		canon, n, s, err := func() (canon string, n []NEntry, s []Sil, err error) {
+			defer func() {
+				if p := recover(); p != nil {
+					err = fmt.Errorf("PANIC: %v", p)
+				}
+			}()
+			return loadBytes(c.Store, mb)
+		}()
+		var out string
+		switch {
+		case err != nil && strings.HasPrefix(err.Error(), "PANIC"):
+			run.Violate("loader-panics", storeName(c.Store)+": the loader panics on a damaged snapshot: "+err.Error(), Case{Kind: "mutate", Store: c.Store, Bytes: base, Muts: []Mut{m}})
+			out = "LdErr"
+			run.Count("mutation_outcome", "panic")
+		case err != nil:
+			out = "LdErr"
+			run.Count("mutation_outcome", kindOf(m)+"/error")
+		default:
+			out = ""
+			if m.Prefix {
+				// direct oracle (prefix_behaviour on the implementation): a strict prefix that loads must be record aligned
+				aligned := m.Len == 0
+				j := 0
+				for i, e := range ends {
+					if e == m.Len {
+						aligned, j = true, i+1
+					}
+				}
+				if !aligned {
+					run.Violate("truncated-record-accepted", fmt.Sprintf("%s: a snapshot cut inside a record (%d of %d bytes) loads without error", storeName(c.Store), m.Len, len(base)),
+						Case{Kind: "mutate", Store: c.Store, Bytes: base, Muts: []Mut{m}})
+				} else {
+					want, _, _, werr := loadBytes(c.Store, base[:m.Len])
+					_ = want
+					if werr == nil {
+						out = fmt.Sprintf("(LdPrefix %d)", j)
+					}
+				}
+				run.Count("mutation_outcome", "prefix/ok-aligned")
+			} else {
+				run.Count("mutation_outcome", "flip/ok")
+			}
+			if out == "" {
+				if c.Store == storeNflog {
+					out = vh.App("LdOk", vh.ListOf(n, coqNEntry))
+				} else {
+					out = vh.App("LdOk", vh.ListOf(s, coqSil))
+				}
+			}
+			_ = canon
+		}
+		items = append(items, vh.Pair(m.coq(), out))
+	}
+	ctor := "CMutN"
+	if c.Store == storeSilence {
+		ctor = "CMutS"
+	}
+	const chunk = 60
+	for lo := 0; lo < len(items); lo += chunk {
+		hi := min(lo+chunk, len(items))
+		cc := *c
+		cc.Muts = c.Muts[lo:hi]
+		run.Add(fmt.Sprintf("%s %s\n  [%s]", ctor, vh.Str(string(base)), strings.Join(items[lo:hi], ";\n   ")), cc, true)
+	}
+}
+
+func kindOf(m Mut) string {
+	if m.Prefix {
+		return "prefix"
+	}
+	return "flip"
+}
+
+func genMuts(r *vh.Rand, b []byte, nflips int) []Mut {
+	var ms []Mut
+	for i := 0; i < len(b); i++ {
+		ms = append(ms, Mut{Prefix: true, Len: i})
+	}
+	for i := 0; i < nflips && len(b) > 0; i++ {
+		pos := r.Intn(len(b))
+		var v byte
+		switch r.Intn(6) {
+		case 0:
+			v = b[pos] ^ byte(1<<uint(r.Intn(8)))
+		case 1:
+			v = b[pos] ^ byte(1+r.Intn(7)) // wire-type bits of a tag byte
+		case 2:
+			v = vh.Pick(r, []byte{0, 0xff, 0x80, 0x7f})
+		case 3:
+			v = b[pos] + 1
+		default:
+			v = byte(r.Intn(256))
+		}
+		if v == b[pos] {
+			v ^= 0x20
+		}
+		ms = append(ms, Mut{Pos: pos, Val: v})
+	}
+	return ms
+}
+
+// ---------- generation of the codec / mutation cases of a run ----------
+
+func codecAll(t *testing.T, run *vh.Run, r *vh.Rand, env vh.Env) {
+	thorough := env.Tier == "thorough"
+	// generated records with all field shapes, reference-marshalled (deterministic order: byte-exact re-encoding)
+	nSmall := env.N(40, 5)
+	for i := 0; i < nSmall; i++ {
+		k := r.Intn(4)
+		var n []NEntry
+		for j := 0; j < k; j++ {
+			n = append(n, genNEntry(r, j, false))
+		}
+		if r.Chance(1, 10) {
+			n = append(n, NEntry{}) // an empty record: MeshEntry without entry
+		}
+		c := Case{Kind: "codec", Store: storeNflog, RecsN: n, Bytes: marshalN(n)}
+		codecCase(t, run, &c)
+		var s []Sil
+		for j := 0; j < k; j++ {
+			s = append(s, genSil(r, j, vh.Pick(r, []string{"new", "legacy", "wire"}), false))
+		}
+		if r.Chance(1, 10) {
+			s = append(s, Sil{})
+		}
+		c = Case{Kind: "codec", Store: storeSilence, RecsS: s, Bytes: marshalS(s)}
+		codecCase(t, run, &c)
+	}
+	// real Snapshot() output (map iteration order, non-deterministic marshalling) of stores of several sizes
+	sizes := []int{0, 1, 2, 3, 10, 60}
+	if thorough {
+		sizes = append(sizes, 500, 2000)
+	}
+	for _, k := range sizes {
+		var n []NEntry
+		var s []Sil
+		for j := 0; j < k; j++ {
+			n = append(n, genNEntry(r, j, true))
+			s = append(s, genSil(r, j, vh.Pick(r, []string{"new", "legacy"}), true))
+		}
+		b := realSnapshot(t, storeNflog, n, nil)
+		c := Case{Kind: "codec", Store: storeNflog, RecsN: n, Bytes: b}
+		codecCase(t, run, &c)
+		b = realSnapshot(t, storeSilence, nil, s)
+		up := make([]Sil, len(s))
+		for i := range s {
+			up[i] = s[i].Upgraded()
+			up[i].Matchers = up[i].MSets[0] // what Snapshot writes: first matcher set copied into the legacy field
+		}
+		c = Case{Kind: "codec", Store: storeSilence, RecsS: up, Bytes: b}
+		codecCase(t, run, &c)
+		run.Count("real_snapshot_sizes", fmt.Sprintf("%d", k))
+	}
+	// prefixes and corruptions of small snapshots
+	nMut := env.N(5, 4)
+	for i := 0; i < nMut; i++ {
+		k := 1 + r.Intn(3)
+		var n []NEntry
+		var s []Sil
+		for j := 0; j < k; j++ {
+			n = append(n, genNEntry(r, j, true))
+			s = append(s, genSil(r, j, vh.Pick(r, []string{"wire", "legacy"}), true))
+		}
+		for _, e := range n {
+			if len(e.Firing) > 20 {
+				n = n[:1]
+				n[0].Firing = n[0].Firing[:3]
+				break
+			}
+		}
+		bn := marshalN(n)
+		c := Case{Kind: "mutate", Store: storeNflog, Bytes: bn, Muts: genMuts(r, bn, 160)}
+		mutateCase(t, run, &c)
+		bs := marshalS(s)
+		c = Case{Kind: "mutate", Store: storeSilence, Bytes: bs, Muts: genMuts(r, bs, 160)}
+		mutateCase(t, run, &c)
+	}
+}
